@@ -95,6 +95,8 @@ pub enum Op {
     /// the array embedded in a frame of `n` modules on every side (fill 0 = light, 1 = dark, 2 = alternating):
     /// a captured quiet zone / a crop taken too wide
     GeoFrame { n: u32, fill: u32 },
+    /// every module drawn as k x k pixels (an image at a higher resolution than one pixel per module)
+    GeoScale { k: u32 },
     /// a margin of `n` modules on ONE side (0 = right, 1 = left, 2 = bottom, 3 = top; fill as for GeoFrame): rows padded
     /// to a byte or word boundary, a crop that is off on one side
     GeoMargin { side: u32, n: u32, fill: u32 },
@@ -405,6 +407,20 @@ pub fn apply_s4(faults: &[Fault], px: &mut Vec<bool>, width: &mut usize, fired: 
                     fired[fi] = true;
                 }
             }
+            Op::GeoScale { k } => {
+                let k = *k as usize;
+                if rect && k > 1 && w > 0 && n * k * k <= 4_000_000 {
+                    let mut out = Vec::with_capacity(n * k * k);
+                    for r in 0..h * k {
+                        for c in 0..w * k {
+                            out.push(px[(r / k) * w + c / k]);
+                        }
+                    }
+                    *px = out;
+                    *width = w * k;
+                    fired[fi] = true;
+                }
+            }
             Op::GeoMargin { side, n: mg, fill } => {
                 let mg = *mg as usize;
                 if rect && mg > 0 && w > 0 {
@@ -549,6 +565,7 @@ fn op_to_json(op: &Op) -> J {
         Op::GeoColDrop { c } => a("geo_col_drop", vec![J::i(*c as usize)]),
         Op::GeoColDup { c } => a("geo_col_dup", vec![J::i(*c as usize)]),
         Op::GeoFrame { n, fill } => a("geo_frame", vec![J::i(*n as usize), J::i(*fill as usize)]),
+        Op::GeoScale { k } => a("geo_scale", vec![J::i(*k as usize)]),
         Op::GeoMargin { side, n, fill } => a("geo_margin", vec![J::i(*side as usize), J::i(*n as usize), J::i(*fill as usize)]),
         Op::GeoWidth { w } => a("geo_width", vec![J::i(*w as usize)]),
         Op::GeoWidthHuge { code } => a("geo_width_huge", vec![J::i(*code as usize)]),
@@ -599,6 +616,7 @@ fn op_from_json(j: &J) -> Result<Op, String> {
         "geo_col_drop" => Op::GeoColDrop { c: n(1)? },
         "geo_col_dup" => Op::GeoColDup { c: n(1)? },
         "geo_frame" => Op::GeoFrame { n: n(1)?, fill: n(2)? },
+        "geo_scale" => Op::GeoScale { k: n(1)? },
         "geo_margin" => Op::GeoMargin { side: n(1)?, n: n(2)?, fill: n(3)? },
         "geo_width" => Op::GeoWidth { w: n(1)? },
         "geo_width_huge" => Op::GeoWidthHuge { code: n(1)? },
@@ -782,6 +800,7 @@ impl Trace {
                 Op::GeoColDrop { c } => h.u32s(&[13, *c]),
                 Op::GeoColDup { c } => h.u32s(&[14, *c]),
                 Op::GeoFrame { n, fill } => h.u32s(&[114, *n, *fill]),
+                Op::GeoScale { k } => h.u32s(&[118, *k]),
                 Op::GeoMargin { side, n, fill } => h.u32s(&[117, *side, *n, *fill]),
                 Op::GeoWidth { w } => h.u32s(&[15, *w]),
                 Op::GeoWidthHuge { code } => h.u32s(&[115, *code]),
